@@ -4,14 +4,15 @@
 //
 //   mo   <seed> <L|-1 default> <append 0/1> <nsub> <nwrites> <maxlen> <flags>
 //        flags: 1 prefix given with trailing '/', 2 pre-existing files, 4 some writes are
-//        issued from inside a handler, 8 second generation on the same prefix (same modes),
+//        issued from inside a handler (typed arguments and stream manipulators are always among the writes), 8 second generation on the same prefix (same modes),
 //        16 the prefix directory lies below directories that do not exist yet
 //   day  <seed> <L> <nwrites> <ts,ts,...>      daily_output, timestamps steered by the check
 //   ser  <kind> <seed> <nitems> <flags>
-//        kind: map multimap set multiset bag cset mapcount
+//        kind: map multimap set multiset bag cset mapcount bagd (bag<double>) bagpd (bag<pair<int,double>>) mapd (map<string,double>)
 //        flags: 1 pre-populated target, 2 barrier before serialize (otherwise the inserts
 //        are still pending), 4 strings may contain NUL, 8 only rank 0 inserts, 16 non-empty
 //        default value, 32 short alphabet (many duplicates / shared prefixes), 64 directed: exactly the keys "a\\0b" and "a\\0c",
+//        1024 operations issued on the TARGET right before deserialize, no barrier in between,
 //        128 reused prefix: a different container is serialized to the same prefix first (512: a tiny one instead of a
 //        big one; 256: its files are also planted at rank indices size..2*size-1 plus one unparsable file)
 //   leak                                      observation: can a post-serialize insert reach another rank's image?
@@ -26,7 +27,11 @@
 #include <ygm/io/multi_output.hpp>
 #include <cereal/archives/json.hpp>
 #include <cereal/types/string.hpp>
+#include <cmath>
+#include <cstring>
 #include <ctime>
+#include <iomanip>
+#include <limits>
 #include <filesystem>
 #include <fstream>
 #include <map>
@@ -141,20 +146,46 @@ static int run_mo(ygm::comm& world, int argc, char** argv) {
         // a few hot subpaths so that several ranks write to the same file
         const std::string& sub = subs[mine.below(3) == 0 ? mine.below(std::min<uint64_t>(2, subs.size())) : mine.below(subs.size())];
         std::string line = gen_line(mine, Lm, maxlen);
-        unsigned how = (flags & 4) ? mine.below(3) : mine.below(2);
-        if (how == 0) {
+        unsigned how = (flags & 4) ? mine.below(4) : mine.below(3);
+        // the oracle for a line is what a FRESH std::ostringstream produces for the call's own arguments
+        auto wl = [&](const std::string& sp, auto&&... args) {
+          mo->async_write_line(sp, args...);
+          std::ostringstream fresh; (fresh << ... << args);
+          hc::out("w " + hex(sp) + " " + hex(fresh.str()));
+          return fresh.str();
+        };
+        if (how == 2) {            // typed arguments, some calls with sticky manipulators
+          unsigned long u = (unsigned long)mine.below(3) == 0 ? mine.next() : mine.below(100000);
+          unsigned long u2 = mine.below(4096);
+          long sn = (long)mine.below(200000) - 100000;
+          double dbl = (mine.below(4) == 0) ? 1e6 * (double)mine.below(1000) : (double)mine.below(1000000007) / 1000003.0;
+          bool bo = mine.below(2);
+          std::string hu = "n:" + std::to_string(u), hu2 = "n:" + std::to_string(u2), hb = bo ? "b:1" : "b:0";
+          switch (mine.below(10)) {
+            case 0: { auto l = wl(sub, "c=", u, " ", bo); hc::out("p " + hex(l) + " s:" + hex("c=") + " " + hu + " s:" + hex(" ") + " " + hb); break; }
+            case 1: { auto l = wl(sub, "h=", std::hex, u, " ", std::dec, u2); hc::out("p " + hex(l) + " s:" + hex("h=") + " m:hex " + hu + " s:" + hex(" ") + " m:dec " + hu2); break; }
+            case 2: { auto l = wl(sub, std::boolalpha, bo, std::oct, u2); hc::out("p " + hex(l) + " m:boolalpha " + hb + " m:oct " + hu2); break; }
+            case 3: { auto l = wl(sub, u2, bo, "|", u); hc::out("p " + hex(l) + " " + hu2 + " " + hb + " s:" + hex("|") + " " + hu); break; }
+            case 4: wl(sub, "n=", sn, " d=", dbl, " b=", bo); break;
+            case 5: wl(sub, "f=", std::fixed, std::setprecision(2), dbl); break;
+            case 6: wl(sub, std::scientific, dbl, " ", std::uppercase, std::hex, std::showbase, u2); break;
+            case 7: wl(sub, std::setw(8), std::setfill('*'), sn, std::setw(6), u2); break;
+            case 8: wl(sub, dbl, " ", sn, " ", bo, " ", u2); break;
+            default: wl(sub, std::setprecision(12), dbl / 7.0, std::showpos, sn); break;
+          }
+        } else if (how == 3) {     // written from inside a handler on another rank
+          int dest = (int)mine.below(world.size());
+          world.async(dest, [](const std::string& sub, const std::string& line) {
+            g_mo->async_write_line(sub, line);
+            hc::out("w " + hex(sub) + " " + hex(line));
+          }, sub, line);
+        } else if (how == 0) {
           mo->async_write_line(sub, line);
           hc::out("w " + hex(sub) + " " + hex(line));
         } else if (how == 1) {   // several stream arguments are packed into one line
           long num = (long)mine.below(100000) - 50000;
           mo->async_write_line(sub, line, num, '|', line.size());
           hc::out("w " + hex(sub) + " " + hex(line + std::to_string(num) + "|" + std::to_string(line.size())));
-        } else {                  // written from inside a handler on another rank
-          int dest = (int)mine.below(world.size());
-          world.async(dest, [](const std::string& sub, const std::string& line) {
-            g_mo->async_write_line(sub, line);
-            hc::out("w " + hex(sub) + " " + hex(line));
-          }, sub, line);
         }
       }
       mo.reset();       // handlers run at the latest in the destructor's barrier, where *mo is still alive
@@ -224,6 +255,25 @@ using SMSet = ygm::container::multiset<std::string>;
 using SBag = ygm::container::bag<std::string>;
 using SCSet = ygm::container::counting_set<std::string>;
 using CMap = ygm::container::map<std::string, size_t>;
+using DBag = ygm::container::bag<double>;
+using PBag = ygm::container::bag<std::pair<int, double>>;
+using DMap = ygm::container::map<std::string, double>;
+
+static std::string bits_be(double d) { uint64_t u; std::memcpy(&u, &d, 8); std::string s; for (int i = 7; i >= 0; --i) s.push_back((char)(u >> (8 * i))); return s; }
+static std::string int_be(int v) { uint32_t u = (uint32_t)v; std::string s; for (int i = 3; i >= 0; --i) s.push_back((char)(u >> (8 * i))); return s; }
+// a double determined by a key string: many-digit, tiny, denormal, huge, negative zero, or any finite bit pattern
+static double dval(const std::string& k) {
+  hc::rng g(std::hash<std::string>{}(k) ^ 0xd0b1eULL);
+  static const double sp[] = {1.0 / 3.0, 0.0031415926535897933, 1e-20, 5e-324, 2.2250738585072009e-308, std::numeric_limits<double>::min(),
+                              std::numeric_limits<double>::max(), -0.0, 0.1, 1e15 + 0.3, 123456789.123456789, -2.0 / 3.0, 1e-15, 9.999999999999999e-16,
+                              6.02214076e23, 1.0, 0.0, 4.9406564584124654e-324, 1e300, -1e-300};
+  switch (g.below(4)) {
+    case 0: return sp[g.below(sizeof(sp) / sizeof(*sp))];
+    case 1: return (double)g.next() / 18446744073709551616.0;               // (0,1), 53 random bits
+    case 2: { uint64_t u = g.next(); if (((u >> 52) & 0x7ff) == 0x7ff) u &= ~(1ULL << 62); double d; std::memcpy(&d, &u, 8); return d; }
+    default: return std::ldexp((double)g.next() / 18446744073709551616.0, (int)g.below(120) - 100);
+  }
+}
 
 static std::string valof(const std::string& k) {  // deterministic value so that duplicate map keys agree
   std::string v = "v:" + k; std::reverse(v.begin(), v.end()); if (k.size() % 3 == 0) v.clear(); return v;
@@ -234,7 +284,13 @@ static size_t countof(const std::string& k, uint64_t seed) {
 }
 
 template <class C> static void dump(C& c, const char* tag) {
-  if constexpr (std::is_same_v<C, SSet> || std::is_same_v<C, SMSet> || std::is_same_v<C, SBag>)
+  if constexpr (std::is_same_v<C, DBag>)
+    c.for_all([tag](double& v) { hc::out(std::string(tag) + " " + hex(bits_be(v))); });
+  else if constexpr (std::is_same_v<C, PBag>)
+    c.for_all([tag](std::pair<int, double>& p) { hc::out(std::string(tag) + " " + hex(int_be(p.first) + bits_be(p.second))); });
+  else if constexpr (std::is_same_v<C, DMap>)
+    c.for_all([tag](const std::string& k, double& v) { hc::out(std::string(tag) + " " + hex(k) + ":" + hex(bits_be(v))); });
+  else if constexpr (std::is_same_v<C, SSet> || std::is_same_v<C, SMSet> || std::is_same_v<C, SBag>)
     c.for_all([tag](const std::string& k) { hc::out(std::string(tag) + " " + hex(k)); });
   else if constexpr (std::is_same_v<C, SCSet> || std::is_same_v<C, CMap>)
     c.for_all([tag](const std::string& k, size_t& v) { hc::out(std::string(tag) + " " + hex(k) + ":" + std::to_string(v)); });
@@ -246,7 +302,20 @@ template <class C> static void insert_one(C& c, const std::string& k, uint64_t s
   if constexpr (std::is_same_v<C, SMap>) { c.async_insert(k, valof(k)); hc::out(tag + " " + hex(k) + ":" + hex(valof(k))); }
   else if constexpr (std::is_same_v<C, SMMap>) { std::string v = valof(k) + std::to_string(seed % 7); c.async_insert(k, v); hc::out(tag + " " + hex(k) + ":" + hex(v)); }
   else if constexpr (std::is_same_v<C, CMap>) { size_t v = countof(k, 12345); c.async_insert(k, v); hc::out(tag + " " + hex(k) + ":" + std::to_string(v)); }
+  else if constexpr (std::is_same_v<C, DBag>) { double v = dval(k); c.async_insert(v); hc::out(tag + " " + hex(bits_be(v))); }
+  else if constexpr (std::is_same_v<C, PBag>) { std::pair<int, double> v((int)(std::hash<std::string>{}(k) & 0xffff) - 30000, dval(k)); c.async_insert(v); hc::out(tag + " " + hex(int_be(v.first) + bits_be(v.second))); }
+  else if constexpr (std::is_same_v<C, DMap>) { double v = dval(k); c.async_insert(k, v); hc::out(tag + " " + hex(k) + ":" + hex(bits_be(v))); }
   else { c.async_insert(k); hc::out(tag + " " + hex(k)); }
+}
+
+// an element that is not part of the image, put into the target before deserialize
+template <class B> static void insert_foreign(B& b, const std::string& k) {
+  if constexpr (std::is_same_v<B, SMap> || std::is_same_v<B, SMMap>) b.async_insert(k, "STALE-VALUE");
+  else if constexpr (std::is_same_v<B, CMap>) b.async_insert(k, 77);
+  else if constexpr (std::is_same_v<B, DBag>) b.async_insert(555.0 + (double)k.size());
+  else if constexpr (std::is_same_v<B, PBag>) b.async_insert(std::make_pair(555, 555.0 + (double)k.size()));
+  else if constexpr (std::is_same_v<B, DMap>) b.async_insert(k, 555.0);
+  else b.async_insert(k);
 }
 
 template <class A, class B, class... CtorArgs>
@@ -291,19 +360,29 @@ static int run_ser_t(ygm::comm& world, uint64_t seed, long nitems, int flags, Ct
     if (fs::exists(fname + std::to_string(world.rank()))) hc::out("file " + hex(slurp(fname + std::to_string(world.rank()))));
     else hc::out("nofile");
     dump(a, "a");
+    hc::out("cursor-expected " + std::to_string(my_inserts));
     world.cf_barrier();            // for_all = barrier + local iteration: nobody may issue anything new before everybody has iterated
+    if (world.rank0()) {           // the names serialize created under the prefix
+      std::vector<std::string> names;
+      for (auto& e : fs::directory_iterator(tmpdir())) { std::string n = e.path().filename().string(); if (n.rfind("img.", 0) == 0) names.push_back(n); }
+      std::sort(names.begin(), names.end());
+      std::string l = "names"; for (auto& n : names) l += " " + hex(n); hc::out(l);
+    }
+    world.cf_barrier();
   }
   {
     B b(world);
     if (flags & 1) {               // the target holds unrelated content (and, for bags, an advanced cursor)
       hc::rng other(seed + 99 + world.rank());
       for (int i = 0; i < 5 + world.rank(); ++i) {
-        std::string k = "old" + gen_str(other, 0);
-        if constexpr (std::is_same_v<B, SMap> || std::is_same_v<B, SMMap>) b.async_insert(k, "oldv");
-        else if constexpr (std::is_same_v<B, CMap>) b.async_insert(k, 77);
-        else b.async_insert(k);
+        insert_foreign(b, "old" + gen_str(other, 0));
       }
       world.barrier();
+    }
+    if (flags & 1024) {            // operations on the target that are STILL PENDING when deserialize is called (no barrier):
+      hc::rng pr(seed + 4242 + 17 * (uint64_t)world.rank());   // fresh keys, and keys of the image with other values / extra increments
+      for (int i = 0; i < 8; ++i)
+        insert_foreign(b, (i % 2 && !pool.empty()) ? pool[pr.below(pool.size())] : "old-pending" + gen_str(pr, 0));
     }
     b.deserialize(fname);
     dump(b, "b");
@@ -311,9 +390,9 @@ static int run_ser_t(ygm::comm& world, uint64_t seed, long nitems, int flags, Ct
     // the extra member: default value (maps), round-robin cursor (bag), default count (counting_set)
     if constexpr (std::is_same_v<B, SMap> || std::is_same_v<B, SMMap>) hc::out("extra " + hex(b.default_value()));
     else if constexpr (std::is_same_v<B, CMap>) hc::out("extra " + std::to_string(b.default_value()));
+    else if constexpr (std::is_same_v<B, DMap>) hc::out("extra " + hex(bits_be(b.default_value())));
     else if constexpr (std::is_same_v<B, SBag>) {
       b.async_insert("\x02marker" + std::to_string(world.rank()));   // lands on (cursor + rank) % size
-      hc::out("cursor-expected " + std::to_string(my_inserts));
       dump(b, "m");
     } else if constexpr (std::is_same_v<B, SCSet>) {
       b.async_insert("\x02marker" + std::to_string(world.rank()));   // new key: default + 1
@@ -333,6 +412,9 @@ static int run_ser(ygm::comm& world, int argc, char** argv) {
   if (kind == "bag") return run_ser_t<SBag, SBag>(world, seed, n, flags);
   if (kind == "cset") return run_ser_t<SCSet, SCSet>(world, seed, n, flags);
   // large counts: written by a map<string,size_t> (same map_impl image), read by a counting_set
+  if (kind == "bagd") return run_ser_t<DBag, DBag>(world, seed, n, flags);
+  if (kind == "bagpd") return run_ser_t<PBag, PBag>(world, seed, n, flags);
+  if (kind == "mapd") return (flags & 16) ? run_ser_t<DMap, DMap>(world, seed, n, flags, 0.1) : run_ser_t<DMap, DMap>(world, seed, n, flags);
   if (kind == "mapcount") return (flags & 16) ? run_ser_t<CMap, SCSet>(world, seed, n, flags, (size_t)5) : run_ser_t<CMap, SCSet>(world, seed, n, flags);
   return 2;
 }
